@@ -336,7 +336,11 @@ func init() {
 				y.Remove(v)
 				y.Add(v ^ 1)
 				y.RemoveRange(uint64(v), uint64(v)+3)
-				y.Flip(uint64(v), uint64(v)+2)
+				hi := uint64(v) + 2
+				if hi > 1<<32 {
+					hi = 1 << 32 // Flip's documented domain ends at 2^32
+				}
+				y.Flip(uint64(v), hi)
 				_ = y.GetCardinality()
 				_ = y.ToArray()
 			}
